@@ -126,6 +126,11 @@ func (r *Run) noteSched(task, yield string) {
 	r.mu.Unlock()
 }
 
+// NoteSched lets an engine whose schedule is decided by its own seeded event
+// loop (rather than by Sched) contribute its decisions to the
+// distinct-schedules measure.
+func (r *Run) NoteSched(actor, decision string) { r.noteSched(actor, decision) }
+
 // Defer registers a teardown function run (in reverse order) when the run's
 // body ends, still inside the bubble.
 func (r *Run) Defer(f func()) { r.cleanup = append(r.cleanup, f) }
